@@ -4,6 +4,7 @@ import (
 	"bytes"
 	"fmt"
 	"net"
+	"time"
 
 	"github.com/refraction-networking/conjure/pkg/transports"
 	pb "github.com/refraction-networking/conjure/proto"
@@ -139,8 +140,11 @@ func (Transport) WrapConnection(data *bytes.Buffer, c net.Conn, phantom net.IP, 
 
 		mc := transports.PrependToConn(c, data)
 		wrapped, err := factory.WrapConn(mc)
+		if err != nil {
+			return r, wrapped, err
+		}
 
-		return r, wrapped, err
+		return r, deadlineConn{Conn: wrapped, under: c}, nil
 	}
 
 	// If we read more than min handshake len, but less than max and didn't find
@@ -154,6 +158,22 @@ func (Transport) WrapConnection(data *bytes.Buffer, c net.Conn, phantom net.IP, 
 	// for the given phantom.
 	return nil, nil, transports.ErrNotTransport
 }
+
+// deadlineConn is the connection handed back for a matched obfs4 session. The
+// obfs4 library's connection rejects SetDeadline and SetWriteDeadline
+// (ENOTSUP), but the station clears the classification deadline and arms its
+// relay deadlines through the wrapped connection, and gives up on a
+// connection that cannot do so. Deadline changes therefore go to the
+// connection the obfs4 session runs over, which is what the obfs4 layer
+// reads from and writes to; everything else goes to the obfs4 connection.
+type deadlineConn struct {
+	net.Conn
+	under net.Conn
+}
+
+func (c deadlineConn) SetDeadline(t time.Time) error      { return c.under.SetDeadline(t) }
+func (c deadlineConn) SetReadDeadline(t time.Time) error  { return c.under.SetReadDeadline(t) }
+func (c deadlineConn) SetWriteDeadline(t time.Time) error { return c.under.SetWriteDeadline(t) }
 
 // This function makes the assumption that any identifier with length 52 is an obfs4 registration.
 // This may not be strictly true, but any other identifier will simply fail to form a connection and
